@@ -37,6 +37,16 @@ CLAIMED = {
    tech="TLC: totality (NoStuck/Bounded) of the CelEval machine over all small ill- and well-typed programs; trace validation where a panic/time-out event has no spec action; kind table and host-operator pair table",
    text="The specification is total: TLC shows that every operator x operand-kind combination has a rule giving a value or an error class (no stuck state) on all programs with <=2 operators over one leaf per kind. cel-rust is then driven over random untyped programs (depth<=8), an exhaustive one-level table of ~120 program forms x every pair of ~60 values of all kinds and extremes, and all pairs of ~110 values under the host-side operators; a recorded panic or time-out is rejected because no behaviour of the specification contains it. Observed, not proved: exploration guided and judged by the model.",
    note="Absence of panics on unexplored inputs is not established; the watchdog/recursion limits of the ANTLR runtime and stack overflow on very deep nesting are outside the explored depth (<=8). " + NOTE_COMMON),
+ "C05": dict(cat="model_checking", ref="6 C05",
+   tech="TLC: CelShare (threads x reference-counted buffers x root context) over all interleavings, with negative configurations; trace validation of execution histories and of multi-threaded runs; Send+Sync compile probe",
+   text="The copy-on-write design is model-checked for 2-3 threads each running every program of <=4 heap operations at reference-count granularity (RootImmutable, NoDangling, ResultIsSequential, HeldValuesStable), and the invariants are shown non-vacuous by deviations that violate them. cel-rust is bound by histories (5-50 executions against one Context; the context and every value obtained so far are re-read after each execution) and by 2-16 OS threads sharing programs and root context, where each concurrent outcome must equal the outcome alone and the specification's.",
+   note="Real schedules are whatever the OS produces (exhaustive interleavings exist only in the model); word-level data races are outside TLA+'s reach. " + NOTE_COMMON),
+ "C19": dict(cat="model_checking", ref="6 C19",
+   tech="TLC: invariant LookedUpSubsetRefs on the CelEval machine's `looked` set over all small programs with names in every position; CelRefsTrace validates reports against the machine's looked set and the four observable clauses",
+   text="The machine records every name handed to variable lookup or function dispatch; TLC checks on all programs with <=2 operators that these occur in the source and that an undeclared outcome names one of them. For cel-rust's report R on random programs (depth<=7): looked(spec run) is inside R on every recorded run, undeclared names are in R, a context defining all of R never yields undeclared, reported variables are identifiers of the source and never macro-internal, and the report is stable."),
+ "C20": dict(cat="model_checking", ref="6 C20",
+   tech="TLC: extractor-by-extractor call binding in CelEval vs CelDen over all small call programs; trace validation of the zoo signature table x argument counts/kinds x both styles, twin styles for built-ins, overrides",
+   text="Receiver/argument binding is specified extractor by extractor (receiver, typed/raw argument, all-arguments, identifier) and model-checked against the denotation on all programs with <=2 calls. Every zoo signature (arity 0-9) is called with 0..arity+2 arguments of matching and mismatching kinds in both styles; what the closure logged and the outcome must equal the specification. x.f(a) and f(x,a) are recorded side by side for every receiver-style built-in over 11 kinds and must agree; overriding a built-in must take effect, also inside macro bodies."),
 }
 
 def main():
